@@ -481,6 +481,9 @@ def inline_helpers(ctx):
     done = normalise.inline_new_helpers(ctx.facts, keep)
     hoisted = normalise.propagate_option_locals(ctx.facts)
     scalar = normalise.scalarise_new_structs(ctx.facts, set(LOCAL_NAMES.get("structs") or [])) if LOCAL_NAMES.get("structs") else {}
+    untupled = normalise.untuple_bool_matches(ctx.facts)
+    for k, v in untupled.items():
+        done["tuple matches with a boolean component read as nested ifs in " + k] = [str(v)]
     if done or hoisted or scalar:
         ctx.cache.clear()
     for k, v in hoisted.items():
